@@ -500,21 +500,72 @@ def joinDocs : List Bytes → Option Bytes
   | [] => none
   | d :: ds => some (ds.foldl (fun acc x => acc ++ [10] ++ x) d)
 
-/-- The strip regexes used by the check's queries, as functions (Rust `regex` is not modelled):
-id 0 = `^//[ \t]*`. -/
+/-- Length of a leading character matched by the regex class `\s` (Unicode White_Space, as the Rust
+`regex` crate defines it), 0 if there is none. -/
+def wsLen : Bytes → Nat
+  | 9 :: _ | 10 :: _ | 11 :: _ | 12 :: _ | 13 :: _ | 32 :: _ => 1
+  | 0xC2 :: 0x85 :: _ | 0xC2 :: 0xA0 :: _ => 2
+  | 0xE1 :: 0x9A :: 0x80 :: _ => 3
+  | 0xE2 :: 0x80 :: c :: _ => if (0x80 ≤ c ∧ c ≤ 0x8A) ∨ c = 0xA8 ∨ c = 0xA9 ∨ c = 0xAF then 3 else 0
+  | 0xE2 :: 0x81 :: 0x9F :: _ => 3
+  | 0xE3 :: 0x80 :: 0x80 :: _ => 3
+  | _ => 0
+
+/-- The strip regexes used by the check's queries, as functions (Rust `regex` is not modelled; the
+docs pipeline below takes the strip function as a PARAMETER):
+id 0 = `^//[ \t]*` (literal prefix, then a greedy ASCII class);
+id 1 = `^/+\s?` (greedy run of a one-character class, then at most one `\s` character). -/
 def stripFn (id : Nat) (b : Bytes) : Bytes :=
   match id, b with
   | 0, 47 :: 47 :: rest => rest.dropWhile (fun c => c == 32 || c == 9)
+  | 1, 47 :: rest =>
+    let r := rest.dropWhile (· == 47)
+    r.drop (wsLen r)
   | _, b => b
 
-def docsOf (src : Bytes) (pi : PatInfo) (a : Acc) : Option Bytes :=
-  let docs := match a.adj, a.docs with
-    | some adj, _ :: _ => adjacentDocs a.docs.reverse adj.sp.row []
-    | _, _ => a.docs
-  let texts := docs.filterMap (fun d =>
+/-- Spec of adjacency: a doc node is adjacent to what follows when it ends on the row just above it
+(or later): `end_row + 1 >= start_row`.  `chainOK ds row`: every node of `ds` is adjacent to the next
+one and the last is adjacent to `row` (the start row of the `select-adjacent!` node). -/
+def chainOK : List Cap → Nat → Bool
+  | [], _ => true
+  | [d], row => decide (d.ep.row + 1 ≥ row)
+  | d :: e :: rest, row => decide (d.ep.row + 1 ≥ e.sp.row) && chainOK (e :: rest) row
+
+/-- All suffixes, longest first. -/
+def suffixes {α : Type} : List α → List (List α)
+  | [] => [[]]
+  | a :: l => (a :: l) :: suffixes l
+
+/-- SPEC of `select-adjacent!`: the longest suffix of the doc captures that is a chain ending at `row`. -/
+def selectSpec (docs : List Cap) (row : Nat) : List Cap :=
+  ((suffixes docs).find? (chainOK · row)).getD []
+
+/-- PORT of the selection (`docs_start_index` loop). -/
+def selectAdjacent (docs : List Cap) (row : Nat) : List Cap := adjacentDocs docs.reverse row []
+
+/-- Texts of doc nodes: not-UTF-8 nodes are skipped, the strip function (if any) is applied per node. -/
+def docTexts (strip : Option (Bytes → Bytes)) (src : Bytes) (docs : List Cap) : List Bytes :=
+  docs.filterMap (fun d =>
     let b := slice src d.sb d.eb
-    if validUtf8 b then some (match pi.strip with | some id => stripFn id b | none => b) else none)
-  joinDocs texts
+    if validUtf8 b then some (match strip with | some f => f b | none => b) else none)
+
+/-- PORT of the docs pipeline of `TagsIter::next`, the strip regex being a parameter. -/
+def docsOfP (strip : Option (Bytes → Bytes)) (src : Bytes) (adj : Option Cap) (docs : List Cap) : Option Bytes :=
+  let sel := match adj, docs with
+    | some adj, _ :: _ => selectAdjacent docs adj.sp.row
+    | _, _ => docs
+  joinDocs (docTexts strip src sel)
+
+/-- SPEC: the docs of a tag are the stripped texts of the doc captures — with `select-adjacent!`, of the
+maximal run of captures adjacent to each other ending just above (or at) the selected node — joined by
+`\n`; no text, no docs. -/
+def docsSpec (strip : Option (Bytes → Bytes)) (src : Bytes) (adj : Option Cap) (docs : List Cap) : Option Bytes :=
+  joinDocs (docTexts strip src (match adj with
+    | some adj => selectSpec docs adj.sp.row
+    | none => docs))
+
+def docsOf (src : Bytes) (pi : PatInfo) (a : Acc) : Option Bytes :=
+  docsOfP (pi.strip.map stripFn) src a.adj a.docs
 
 def maxLineLen : Nat := 180
 
@@ -694,4 +745,57 @@ namespace TsVerif.C18
 /-- Test matches with a pattern index (three patterns, all plain). -/
 def wcfg3 : Cfg := { wcfg with pats := #[{}, {}, {}] }
 def wmp (p s e : Nat) : Mat := { wm s e with pat := p }
+end TsVerif.C18
+
+namespace TsVerif.C18
+
+/-! ## The loop with residence histories (for "lowest pattern index within one residence") -/
+
+/-- A queue entry together with the arrivals merged into it since it entered the queue. -/
+abbrev QueueH := List ((Tag × Nat) × List (Tag × Nat))
+
+/-- `qInsert` that also records the arrival: appended to the history of the queued entry with the same
+name range, or starting the history of a new entry. -/
+def qInsertH (tag : Tag) (pat : Nat) : QueueH → QueueH
+  | [] => [((tag, pat), [(tag, pat)])]
+  | ((t, p), h) :: rest =>
+    if key t == key tag then
+      ((if p > pat then (tag, pat) else (t, p)), h ++ [(tag, pat)]) :: rest
+    else if keyLt (key tag) (key t) then ((tag, pat), [(tag, pat)]) :: ((t, p), h) :: rest
+    else ((t, p), h) :: qInsertH tag pat rest
+
+def projH (q : QueueH) : Queue := q.map Prod.fst
+
+def flushReadyH : Nat → QueueH → QueueH × QueueH
+  | 0, q => ([], q)
+  | fuel + 1, q =>
+    if ready (projH q) then
+      match q with
+      | [] => ([], q)
+      | ((t, p), h) :: rest =>
+        let (out, q') := flushReadyH fuel rest
+        (if t.isIgnored then out else ((t, p), h) :: out, q')
+    else ([], q)
+
+def drainH (skip : Bool) : Nat → QueueH → QueueH
+  | 0, _ => []
+  | fuel + 1, q =>
+    match q with
+    | [] => []
+    | ((t, p), h) :: rest =>
+      if ready (projH q) then (if t.isIgnored then drainH skip fuel rest else ((t, p), h) :: drainH skip fuel rest)
+      else if skip && t.isIgnored then drainH skip fuel rest
+      else ((t, p), h) :: drainH skip fuel rest
+
+/-- `runP` on a queue with histories (`st.queue` is kept equal to `projH qh`). -/
+def runH (v : Variant) (cfg : Cfg) (src : Bytes) : List Mat → St → QueueH → QueueH
+  | [], _, qh => drainH v.drainSkips qh.length qh
+  | m :: ms, st, qh =>
+    let (out, qh') := flushReadyH qh.length qh
+    let st1 : St := { st with queue := projH qh' }
+    let qh'' := match inserted v cfg src m st1 with
+      | some a => qInsertH a.1 a.2 qh'
+      | none => qh'
+    out ++ runH v cfg src ms (processMatch v cfg src m st1) qh''
+
 end TsVerif.C18
